@@ -171,6 +171,7 @@ func (e *env) try(key, src string, cfgs []cfg, wantErr bool) {
 	}
 	if nt {
 		c.Nontrivial()
+		c.Sample(map[string]any{"input": short(src), "configurations": len(cfgs), "must_be_refused": wantErr})
 	}
 }
 
